@@ -1063,7 +1063,13 @@ mod verif_inflate_core {
         assert!(inv_l(&l), "OBL:fast.registers_well_formed [C05]");
         match st {
             TINFLStatus::Done => assert!(state == DecodeLitlen || state == BlockDone, "OBL:fast.done_states [C03]"),
-            TINFLStatus::Failed => assert!(state == InvalidLitlen || state == InvalidDist || state == DistanceOutOfBounds, "OBL:fast.failure_states [C04]"),
+            TINFLStatus::Failed => {
+                assert!(state == InvalidLitlen || state == InvalidDist || state == DistanceOutOfBounds, "OBL:fast.failure_states [C04]");
+                // a distance is rejected only if it really reaches before the data: not when it equals the window size
+                if state == DistanceOutOfBounds {
+                    assert!((flat && l.dist as usize > ob.position()) || l.dist as usize > outl, "OBL:fast.valid_distances_up_to_the_window_size_are_accepted [C03]");
+                }
+            }
             _ => assert!(false, "OBL:fast.only_done_or_failed [C04]"),
         }
         kani::cover!(st == TINFLStatus::Failed, "COV:fast.failed");
@@ -1124,6 +1130,71 @@ mod verif_inflate_core {
         // whole unread bytes can only be handed back if they were read during this call (none were): the record's
         // precondition num_bits < 8 therefore needs the history invariant of DESIGN.md §4 C06 (assumed)
         assert!(r.num_bits == nb0, "OBL:boundary.pending_bits_kept [C19]");
+    }
+
+    // ------------------------------------------------------------------
+    // K-longcodes : the real init_tree on a CONCRETE complete code with lengths 1,2,...,14,15,15 (codes up to 15 bits,
+    // i.e. through the overflow tree), then the real decode_huffman_code / HuffmanTable::lookup on a symbolic bit
+    // stream. Oracle: canonical Huffman decoding per RFC 1951 §3.2.2 (for this code: count leading 1 bits).
+    // The table build is concrete (a test of init_tree, not a proof); the decoding is complete over all bit streams.
+    // ------------------------------------------------------------------
+    fn long_code_decoder() -> DecompressorOxide {
+        let mut r = DecompressorOxide::default();
+        let mut k = 0;
+        while k < 16 { r.code_size_literal[k] = if k < 15 { (k + 1) as u8 } else { 15 }; k += 1; }
+        r.table_sizes[LITLEN_TABLE] = 16;
+        r.block_type = LITLEN_TABLE as u8;
+        r
+    }
+    /// canonical decode of the unary-shaped code: symbol = number of leading 1 bits (capped), length = symbol+1 (cap 15)
+    fn oracle_long_code(v: u128, n: u32) -> Option<(i32, u32)> {
+        let mut ones = 0u32;
+        let mut k = 0;
+        while k < 15 { if ones == k && k < n && (v >> k) & 1 == 1 { ones += 1; } k += 1; }
+        let (sym, len) = if ones >= 15 { (15, 15) } else if ones == 14 { (14, 15) } else { (ones as i32, ones + 1) };
+        if n >= len { Some((sym, len)) } else { None }
+    }
+    /// <[T]>::fill model for this harness only: a no-op. Sound here because the code is complete: init_tree
+    /// overwrites every fast-table slot afterwards (checked below at a symbolic slot: no slot keeps the default 0),
+    /// and the tree array of a default decoder is already zero.
+    fn model_fill_noop<T: Clone>(s: &mut [T], v: T) {}
+    #[kani::proof]
+    #[kani::unwind(520)]
+    #[kani::stub(<[i16]>::fill, model_fill_noop)]
+    fn k_decode_huffman_long_codes() {
+        let mut r = long_code_decoder();
+        let mut l0 = LocalVars { bit_buf: 0, num_bits: 0, dist: 0, counter: 0, num_extra: 0 };
+        let a = init_tree(&mut r, &mut l0);
+        assert!(matches!(a, Some(Action::Jump(DecodeLitlen))), "OBL:longcodes.complete_code_with_15_bit_lengths_is_accepted [C03]");
+        let slot: usize = kani::any();
+        kani::assume(slot < 1024);
+        assert!(r.tables[LITLEN_TABLE].look_up[slot] != 0, "OBL:longcodes.every_fast_table_slot_assigned_for_a_complete_code [C03]");
+        let mut l = any_l();
+        kani::assume(l.num_bits <= 40);
+        let inb: [u8; 3] = kani::any();
+        let inl: usize = kani::any();
+        kani::assume(inl <= 3);
+        let flags: u32 = kani::any();
+        let mut in_iter = InputWrapper::from_slice(&inb[..inl]);
+        let (v0, n0) = bits_view(&l, &inb[..inl]);
+        let got = ::core::cell::Cell::new(-1i32);
+        let act = decode_huffman_code(&mut r, &mut l, LITLEN_TABLE, flags, &mut in_iter, |_r, _l, sym| { got.set(sym); Action::None });
+        let (v1, n1) = bits_view(&l, in_iter.as_slice());
+        match oracle_long_code(v0, n0) {
+            Some((sym, len)) => {
+                assert!(matches!(act, Action::None) && got.get() == sym, "OBL:longcodes.symbol_is_the_canonical_huffman_decode [C03]");
+                assert!(n1 + len == n0 && v1 == v0 >> len, "OBL:longcodes.exactly_the_code_length_is_consumed [C03 C06]");
+            }
+            None => {
+                assert!(matches!(act, Action::End(_)) && got.get() == -1, "OBL:longcodes.incomplete_code_at_end_of_input_is_starvation_not_a_symbol [C04 C07]");
+                assert!(n1 == n0 && v1 == v0 && in_iter.bytes_left() == 0, "OBL:longcodes.starved_decode_leaves_bit_stream_unchanged [C07]");
+            }
+        }
+        // never more input in the bit buffer than needed to reach 15 bits when fewer than 2 bytes were offered
+        if inl < 2 && l.num_bits as usize >= 8 { assert!(n0 - 8 * (inl as u32) < 15 || in_iter.bytes_left() == inl, "OBL:longcodes.reads_only_the_bytes_it_needs_near_end_of_input [C06]"); }
+        assert!(inv_l(&l), "OBL:longcodes.registers_well_formed [C05]");
+        kani::cover!(matches!(oracle_long_code(v0, n0), Some((15, 15))), "COV:longcodes.fifteen_bit_code");
+        kani::cover!(oracle_long_code(v0, n0).is_none(), "COV:longcodes.starved");
     }
 
     //@PLAYBACK@
